@@ -464,6 +464,13 @@ pub fn run_config(cfg: &Config, base_id: u64, events: &[EventSpec]) -> ConfigRun
                 r.seq, r.conn, r.transport, r.path, r.encoding, r.gzip, r.decision, r.outcome, r.wire_len, r.payload_len, r.records, r.decode_error, r.json_notes
             );
         }
+        if std::env::var("VERIF_DEBUG").as_deref() == Ok("2") {
+            for r in &log {
+                if let (collector::Encoding::Json, Some(p)) = (r.encoding, &r.payload) {
+                    eprintln!("body {}: {}", r.seq, String::from_utf8_lossy(p));
+                }
+            }
+        }
         eprintln!("flush_ok={flush_ok} discarded={discarded_total}");
     }
 
